@@ -440,7 +440,12 @@ class Bus (objects.DBusObject):
         owner = queue[0]
 
         if caller is not owner:
-            return client.NAME_NOT_OWNER
+            if caller not in queue:
+                return client.NAME_NOT_OWNER
+
+            # a waiting connection gives up its place in the queue
+            queue.remove(caller)
+            return client.NAME_RELEASED
 
         del queue[0]
 
